@@ -6,7 +6,10 @@ package sched
 
 import (
 	"fmt"
+	"runtime"
 )
+
+func runtimeGosched() { runtime.Gosched() }
 
 type thread struct {
 	id   int
@@ -35,6 +38,8 @@ type Exec struct {
 	atomic  int
 	allDone chan struct{}
 	Diverged string // non-empty if the prefix could not be replayed (nondeterminism in the code under test)
+	Deadlock bool
+	blockedSpins int
 }
 
 var active *Exec
@@ -46,6 +51,70 @@ func Point(site string) {
 		return
 	}
 	e.decide(site, true)
+}
+
+// BlockUntil is called by instrumented code in place of a blocking synchronisation operation (Mutex.Lock, Once.Do
+// while another thread is inside): it hands control to other threads until try succeeds. If no other thread can run the
+// execution is a deadlock.
+func BlockUntil(site string, try func() bool) {
+	e := active
+	if e == nil {
+		for !try() {
+			runtimeGosched()
+		}
+		return
+	}
+	for !try() {
+		if !e.yieldBlocked(site) {
+			return
+		}
+	}
+}
+
+// yieldBlocked switches to another enabled thread although the running one is not finished; false on deadlock.
+func (e *Exec) yieldBlocked(site string) bool {
+	t := e.cur
+	others := 0
+	for _, o := range e.threads {
+		if !o.done && o != t {
+			others++
+		}
+	}
+	if others == 0 || e.blockedSpins > 10000 {
+		if e.Diverged == "" {
+			e.Diverged = "DEADLOCK: thread blocked at " + site + " and no other thread can make progress"
+			e.Deadlock = true
+		}
+		close(e.allDone)
+		select {} // this logical thread can never continue; the worker process reports the deadlock and goes on
+	}
+	e.blockedSpins++
+	// a forced switch: the blocked thread is not a candidate
+	i := len(e.points)
+	if i >= cap(e.points) {
+		e.Diverged = "point limit exceeded"
+		close(e.allDone)
+		select {}
+	}
+	e.points = e.points[:i+1]
+	p := &e.points[i]
+	p.running, p.runningEnabled, p.site, p.choice = int8(t.id), false, site, 0
+	n := int8(0)
+	for _, o := range e.threads {
+		if !o.done && o != t {
+			p.enabled[n] = int8(o.id)
+			n++
+		}
+	}
+	p.nEnabled = n
+	if i < len(e.prefix) && e.prefix[i] < int(n) {
+		p.choice = int8(e.prefix[i])
+	}
+	next := e.threads[p.enabled[p.choice]]
+	e.cur = next
+	next.wake <- struct{}{}
+	<-t.wake
+	return true
 }
 
 // AtomicEnter/AtomicExit bracket code whose number of steps is not deterministic (map iteration); it runs as one step.
@@ -220,6 +289,7 @@ type Explorer struct {
 	NShards   int
 	Execs     int64
 	Diverged  int64
+	Deadlocks int64
 	MaxPoints int
 	Violation func(choices []int, schedule []string, what string)
 	Outcomes  map[string]int64
@@ -236,6 +306,15 @@ func (x *Explorer) runOne(prefix []int, shared bool) *Exec {
 	}
 	if e.NumPoints() > x.MaxPoints {
 		x.MaxPoints = e.NumPoints()
+	}
+	if e.Deadlock {
+		x.Deadlocks++
+		x.Capped = true
+		x.MaxExecs = x.Execs // stop: the abandoned thread still holds whatever it had locked
+		if x.Violation != nil {
+			x.Violation(e.Choices(), e.Schedule(), e.Diverged)
+		}
+		return e
 	}
 	if e.Diverged != "" {
 		x.Diverged++
